@@ -72,6 +72,12 @@ def _machine(cfg: HistoryProperty, res: ShardResult, max_rules: int):
             for _ in range(n):
                 self._do(["step"])
 
+        if cfg.instr_bias.get("rush"):
+
+            @rule(tsel=st.integers(0, 3), csel=st.integers(0, 3), k=st.integers(2, 8))
+            def rush(self, tsel, csel, k):
+                self._do(["rush", tsel, csel, k])
+
         if cfg.probes:
 
             @rule(kind=i_args["kind"], vclass=i_args["vclass"], vsel=i_args["vsel"], tclass=i_args["tclass"], tsel=i_args["tsel"], csel=i_args["csel"])
@@ -120,7 +126,7 @@ def _machine(cfg: HistoryProperty, res: ShardResult, max_rules: int):
 
 def shard(cfg: HistoryProperty, tier: str, seed: int, shard_idx: int) -> ShardResult:
     import hypothesis
-    from hypothesis import HealthCheck, Phase, settings
+    from hypothesis import HealthCheck, Phase, Verbosity, settings
     from hypothesis.stateful import run_state_machine_as_test
 
     _, cases, rules = cfg.quick if tier == "quick" else cfg.thorough
@@ -129,7 +135,7 @@ def shard(cfg: HistoryProperty, tier: str, seed: int, shard_idx: int) -> ShardRe
     stt = settings(
         max_examples=cases, stateful_step_count=rules, deadline=None, database=None, derandomize=False,
         report_multiple_bugs=False, suppress_health_check=list(HealthCheck),
-        phases=(Phase.generate,), print_blob=False,
+        phases=(Phase.generate,), print_blob=False, verbosity=Verbosity.quiet,
     )
     try:
         run_state_machine_as_test(hypothesis.seed(seed * 1000 + shard_idx)(M), settings=stt)
@@ -153,3 +159,24 @@ def minimise_and_replayable(cfg: HistoryProperty, failure: Dict[str, Any], budge
 def replay_case(cfg: HistoryProperty, case: Dict[str, Any]) -> Optional[Violation]:
     v, _ = replay(case, cfg.monitors, cfg.prop)
     return v
+
+
+def install(ns: Dict[str, Any], cfg: HistoryProperty) -> None:
+    """define the module-level interface (nshards, shard, replay, minimise, RULE, ...) for a property
+    that is decided by the history engine alone"""
+    ns["CFG"] = cfg
+    ns["RULE"], ns["ASSUMPTIONS"] = cfg.rule, cfg.assumptions
+    ns.setdefault("FLOORS", {})
+    ns["nshards"] = lambda tier: (cfg.quick if tier == "quick" else cfg.thorough)[0]
+    ns["shard"] = lambda tier, seed, idx: shard(cfg, tier, seed, idx)
+    ns["replay"] = lambda case: replay_case(cfg, case)
+    ns["minimise"] = lambda failure: minimise_and_replayable(cfg, failure)
+
+
+COMMON_ASSUMPTIONS = [
+    "pooling activities are unreachable from any input (ServicingPoolingTrip.enter requires a previous DISPATCH_POOLING_TRIP activity) and are not generated; the allows_pooling request column is left out, as in every shipped request file",
+    "a base's station is co-located with the base, as the input documentation says",
+    "vehicles are only sent to queue for plugs of the wrong energy type when charging_search_type is not shortest_time_to_charge (HIVE's ranking raises in that combination; counted as excluded_wrong_energy_plug_choice)",
+    "PYTHONHASHSEED pinned to 0 for the check process; HIVE's stdout/logging redirected",
+    "time steps of history checks are 15-600 s; search resolution 7-8 and search radius 5-10 km (ring search cost), component checks cover 1 s steps and other resolutions",
+]
